@@ -272,6 +272,38 @@ def degenerate_body(H, V):
             H.ok("Polygon.rejects_" + name)
 
 
+def polyhedron_alias_body(kind):
+    """Constructors of the polyhedron classes never keep the caller's arrays (vertices or faces)."""
+    def body(H, V):
+        import coxeter.shapes as S
+        import numpy as rnp
+
+        base = SH.CONVEX["wedge"]
+        facets = SH.convex_facets(base)
+        P = SH.place(base, "r1", V["s"], [V["tx"], V["ty"], V["tz"]])
+        inp = H.arr(P)
+        keep = [list(r) for r in inp]
+        if kind == "Polyhedron":
+            faces = [rnp.array(f) for f in facets]
+            fkeep = [list(f) for f in faces]
+            s = S.Polyhedron(inp, faces, faces_are_convex=True)
+            H.claim("faces_not_the_callers_objects", not any(a is b for a in s._faces for b in faces))
+            H.claim("faces_share_no_memory", not any(isinstance(a, rnp.ndarray) and rnp.shares_memory(a, b) for a in s._faces for b in faces))
+            H.claim("caller_faces_unchanged", [list(f) for f in faces] == fkeep)
+            core = s
+        elif kind == "ConvexPolyhedron":
+            s = S.ConvexPolyhedron(inp)
+            core = s
+        else:
+            s = S.ConvexSpheropolyhedron(inp, H.num(F(1, 2)))
+            core = s.polyhedron
+        H.claim("vertices_share_no_memory", not bool(rnp.shares_memory(core._vertices, inp)))
+        H.claim_all_eq("caller_vertices_unchanged", [list(r) for r in inp], keep)
+        H.claim_all_eq("stored_vertices=input", [list(r) for r in core.vertices], keep)
+
+    return body
+
+
 def obligations(tier, seed):
     from symx.loader import functions_encoded
     import coxeter.shapes as S
@@ -311,6 +343,11 @@ def obligations(tier, seed):
                 nm, ["s", "tx", "ty", "tz"], make_order_body(cls, "quad", perm, quat), positive=["s"], first_sample=first, max_paths=2,
                 functions=functions_encoded([getattr(S, cls).__init__, S.ConvexPolygon._reorder_verts]), stubs=["ConvexHull / kabsch contract stubs"],
                 bounds="%s from the convex quadrilateral in input order %s, free scale/translation, plane %s" % (cls, perm, quat)))))
+    for kind in ("Polyhedron", "ConvexPolyhedron", "ConvexSpheropolyhedron"):
+        nm = "C15/%s.aliasing" % kind
+        obs.append((nm, (lambda nm=nm, kind=kind: run_e2(nm, ["s", "tx", "ty", "tz"], polyhedron_alias_body(kind), positive=["s"], first_sample=first, max_paths=2,
+                                                         functions=functions_encoded([getattr(S, kind).__init__]), stubs=["ConvexHull / kabsch contract stubs"],
+                                                         bounds="%s built from arrays (wedge, free placement): stored arrays vs the caller's" % kind))))
     obs.append(("C15/radii", lambda: run_e2("C15/radii", ["v"], radii_body, first_sample=dict(v=F(1, 2)), functions=functions_encoded([S.Circle.__init__, S.Ellipsoid.__init__]),
                                              bounds="radius / semi-axis / rounding radius v: one free real of either sign, nine constructors")))
     obs.append(("C15/degenerate", lambda: run_e2("C15/degenerate", ["tx", "ty", "tz"], degenerate_body, first_sample=dict(tx=F(1), ty=F(2), tz=F(3)),
